@@ -14,6 +14,7 @@ import (
 
 type seqP struct {
 	Exotic  bool     `json:"exotic,omitempty"`
+	Twins   bool     `json:"twins,omitempty"`
 	Cfg     Cfg      `json:"cfg"`
 	Steps   int      `json:"steps"`
 	Comps   []string `json:"comps,omitempty"`
@@ -97,6 +98,11 @@ func seqCases(prop, tier string, seed uint64) []Case {
 		cfg := cfgs[i%len(cfgs)]
 		st := steps/2 + r.Intn(steps/2+1)
 		p := seqP{Cfg: cfg, Steps: st, Exotic: i%3 == 2}
+		if i%6 == 1 && (prop == "C01" || prop == "C04" || prop == "C05" || prop == "C07") {
+			// metadata twins: few names, every batched member with one size / mode / modification time
+			p.Twins = true
+			p.Comps = []string{"a", "b", "c"}
+		}
 		if prop == "C05" && i%8 == 7 {
 			p.Cfg.Overwrite = true
 		}
@@ -703,6 +709,10 @@ func seqRun(prop, tier string, c Case, w *Worker) (res Result) {
 	h.ops = h.ops[:0]
 	gopts := genOptsFor(prop, rig.Cfg, p.Comps)
 	gopts.Exotic = p.Exotic
+	if p.Twins && gopts.Batched {
+		gopts.Twins = true
+		h.kind = "twins"
+	}
 	if p.Exotic {
 		h.kind = "exotic"
 	}
